@@ -555,3 +555,160 @@ fn c19_hello_head_two_heads_layout_independent() {
     core::mem::forget(c1);
     core::mem::forget(c2);
 }
+
+// ------------------------------------------------------------------ smaller kernels (no graph search)
+
+/// C10 kernel: Transaction::init directly (no search, no loop): created iff id == graph id, no
+/// parent, policy present, rule accepts; otherwise nothing is created and nothing committed.
+#[kani::proof]
+#[kani::unwind(6)]
+fn c10_init_direct() {
+    c10_init_direct_case(0);
+    c10_init_direct_case(1);
+    c10_init_direct_case(2);
+}
+
+fn c10_init_direct_case(pk: u8) {
+    let g: u8 = kani::any();
+    let id: u8 = kani::any();
+    let has_policy: bool = kani::any();
+    let rejected: bool = kani::any();
+    let parent = match pk {
+        0 => Prior::None,
+        1 => Prior::Single(addr(kani::any(), 0)),
+        _ => Prior::Merge(addr(kani::any(), 0), addr(kani::any(), 0)),
+    };
+    let cmd = ACmd { id, parent, has_policy, merge: pk == 2 };
+    let mut prov = AProvider::empty();
+    let mut ps = policies(if rejected { Some(id) } else { None });
+    let mut sink = ASink::new();
+    let mut trx: Trx = Transaction::new(gid(g));
+    let ok = trx.init(&cmd, &mut ps, &mut prov, &mut sink).is_ok();
+    let well_formed = (id == g) & (pk == 0) & has_policy;
+    assert!(ok == (well_formed & !rejected));
+    if ok {
+        assert!(prov.exists && prov.graph == g && prov.new_storage_calls == 1);
+        assert!(prov.store.nseg == 1 && prov.store.segs[0].len == 1 && prov.store.segs[0].ids[0] == id);
+        assert!(sink.commits == 1 && sink.rollbacks == 0 && sink.ncommitted == 1);
+        kani::cover!(true, "graph created");
+    } else {
+        assert!(!prov.exists && prov.new_storage_calls == 0 && prov.store.nseg == 0);
+        assert!(sink.commits == 0 && sink.ncommitted == 0);
+        if !well_formed {
+            assert!(ps.add_calls == 0 && sink.begins == 0);
+        } else {
+            assert!(sink.rollbacks == 1);
+        }
+        kani::cover!((id != g) & has_policy, "wrong id refused");
+        kani::cover!((id == g) & !has_policy, "policy-less init refused");
+        kani::cover!(well_formed & rejected, "init rejected by its own rule");
+    }
+    core::mem::forget(trx);
+}
+
+/// C08 kernel: commit() on a transaction with no tips: a stale stamp is refused with
+/// ConcurrentTransaction BEFORE anything is flushed or committed; no stamp => Ok(false).
+#[kani::proof]
+#[kani::unwind(6)]
+fn c08_commit_stale_stamp_refused_early() {
+    let g: u8 = kani::any();
+    let (a, _, _) = any_distinct3(g);
+    let has: bool = kani::any();
+    // CONCRETE distinct stamps: with symbolic stamps CBMC also walks the matching-stamp
+    // continuation (flush, head-set rebuild, braid), which does not finish.
+    let x: u64 = 5;
+    let y: u64 = 9;
+    let mut store = AStore::with_chain(&[g, a]);
+    store.offset = y;
+    let mut prov = AProvider::with(store, g);
+    let mut ps = policies(None);
+    let mut sink = ASink::new();
+    let mut bufs: RuntimeBuffers<ASeg> = RuntimeBuffers::new();
+    let mut trx: Trx = Transaction::new(gid(g));
+    trx.original_heads_offset = if has { Some(HeadSetOffset::new(x)) } else { None };
+    // an in-flight perspective with one accepted command: commit must not even flush it when the
+    // stamp is stale
+    let mut p = APersp::new(Prior::Single(addr(a, 1)), Prior::Single(loc(0, 1)), 2);
+    p.cmds[0] = 77;
+    p.ncmd = 1;
+    trx.perspective = Some(p);
+    trx.phead = Some(cid(77));
+    let stale = has & (x != y);
+    let r = trx.commit(&mut prov, &mut ps, &mut sink, &mut bufs, &MemSpill::new);
+    match r {
+        Ok(b) => {
+            assert!(!has && !b);
+        }
+        Err(e) => {
+            assert!(stale);
+            assert!(matches!(e, ClientError::ConcurrentTransaction));
+            core::mem::forget(e);
+        }
+    }
+    assert!(prov.store.commit_calls == 0 && prov.store.write_calls == 0 && prov.store.offset == y);
+    assert!(prov.store.heads.len() == 1);
+    kani::cover!(stale, "stale stamp refused before flush");
+    kani::cover!(!has, "nothing read, nothing to commit");
+    core::mem::forget(bufs);
+}
+
+/// C06 kernel: add_single onto the transaction's CURRENT perspective (parent == phead, so no
+/// graph search): the rule writes a fact and then accepts or rejects (symbolic).  Rejected:
+/// perspective reverted to the checkpoint taken before the rule, effects rolled back, command not
+/// added, phead unchanged.  Accepted: command appended after its own write, effect committed.
+#[kani::proof]
+#[kani::unwind(6)]
+fn c06_add_single_current_perspective() {
+    let g: u8 = kani::any();
+    let (a, c0, c1) = any_distinct3(g);
+    let rejected: bool = kani::any();
+    let pre: usize = kani::any(); // commands already in the perspective
+    kani::assume(pre <= 1);
+    let mut store = AStore::with_chain(&[g, a]);
+    let mut ps = policies(if rejected { Some(c1) } else { None });
+    let mut sink = ASink::new();
+    let mut tb = TraversalBuffer::new();
+    let mut trx: Trx = Transaction::new(gid(g));
+    let mut p = APersp::new(Prior::Single(addr(a, 1)), Prior::Single(loc(0, 1)), 2);
+    let parent_id = if pre == 1 {
+        p.cmds[0] = c0;
+        p.ncmd = 1;
+        p.writes[0] = 1;
+        c0
+    } else {
+        a
+    };
+    trx.perspective = Some(p);
+    trx.phead = Some(cid(parent_id));
+    let cmd = ACmd { id: c1, parent: Prior::Single(addr(parent_id, 1 + pre as u64)), has_policy: false, merge: false };
+    let r = trx.add_single(&mut store, &mut ps, &mut sink, &cmd, addr(parent_id, 1 + pre as u64), &mut tb);
+    let p2 = match &trx.perspective {
+        Some(p) => *p,
+        None => panic!("perspective vanished"),
+    };
+    assert!(store.write_calls == 0 && store.commit_calls == 0);
+    match r {
+        Ok(()) => {
+            assert!(!rejected);
+            assert!(p2.ncmd == pre + 1 && p2.cmds[pre] == c1);
+            assert!(p2.writes[pre] == 1 && p2.reverts == 0);
+            assert!(sink.commits == 1 && sink.rollbacks == 0 && sink.ncommitted == 1 && sink.committed[0] == c1);
+            assert!(trx.phead == Some(cid(c1)));
+            kani::cover!(pre == 1, "accepted onto a non-empty perspective");
+        }
+        Err(e) => {
+            assert!(rejected);
+            assert!(matches!(e, ClientError::PolicyError(PolicyError::Rejected)));
+            assert!(p2.ncmd == pre && p2.reverts == 1 && p2.last_revert_index == pre);
+            assert!(p2.pending_writes() == 0); // the write the rule made before failing is gone
+            if pre == 1 {
+                assert!(p2.cmds[0] == c0 && p2.writes[0] == 1); // the earlier command keeps its own write
+            }
+            assert!(sink.commits == 0 && sink.rollbacks == 1 && sink.ncommitted == 0);
+            assert!(trx.phead == Some(cid(parent_id)));
+            kani::cover!(pre == 1, "rejected after an accepted command");
+            core::mem::forget(e);
+        }
+    }
+    core::mem::forget(trx);
+}
